@@ -20,9 +20,9 @@ type Mutant struct {
 	File  string   `json:"file"`
 	Old   string   `json:"old"`
 	New   string   `json:"new"`
-	Rules []string `json:"rules"` // rules expected to report (at least one obligation of each)
-	Also  []string `json:"also,omitempty"`  // other rules that may legitimately report too
-	Props []string `json:"props"` // properties the mutation breaks
+	Rules []string `json:"rules"`          // rules expected to report (at least one obligation of each)
+	Also  []string `json:"also,omitempty"` // other rules that may legitimately report too
+	Props []string `json:"props"`          // properties the mutation breaks
 	Why   string   `json:"why"`
 }
 
